@@ -79,9 +79,11 @@ class NormDomain(Domain):
         if isinstance(v, Const):
             return repr(v.v)
         if isinstance(v, Tup):
-            return '(%s)' % ','.join(self.key(x) for x in v.items)
+            ks = [self.key(x) for x in v.items]
+            return None if any(k is None for k in ks) else '(%s)' % ','.join(ks)
         if isinstance(v, Slice):
-            return '%s:%s:%s' % (self.key(v.lo), self.key(v.hi), self.key(v.step))
+            ks = [self.key(v.lo), self.key(v.hi), self.key(v.step)]
+            return None if any(k is None for k in ks) else '%s:%s:%s' % tuple(ks)
         return None
 
     def func_atom(self, fname, args, real=True):
@@ -524,6 +526,8 @@ class ArrNormDomain(NormDomain):
                     fill = args[1]
                 return Arr(shp, [fill] * _size(shp))
             return None
+        if dotted == 'numpy.broadcast_arrays' and args and all(self.rat(a) is not None for a in args):
+            return Tup(list(args), 'list')          # scalars broadcast against each other are themselves
         if dotted in ('numpy.asarray', 'numpy.array') and args:
             a = self._from_nested(args[0])
             if a is not None:
